@@ -113,6 +113,9 @@ SCENARIOS: list[tuple[str, list[list]]] = [
      [["t.claim", "run1", 1], ["t.claim", "run1", 1], ["adv", "claim", 0], ["adv", "us", 1], ["t.claim", "run1", 1], ["t.claim", "run1", 1], ["t.claim", "run2", 60],
       ["adv", "us", 250_000], ["t.claim", "run1", 1], ["adv", "claim", -1], ["t.claim", "run1", 1], ["adv", "claim", 0], ["adv", "us", 1], ["t.claim", "run1", 60], ["t.claim", "run1", 1],
       ["t.claim", "run2", 60], ["adv", "us", 999], ["t.claim", "run1", 1]]),
+    ("cron compare-and-swap with the current value written in another time zone",
+     [["t.cond", "c1"], ["t.cron", "c1", None], ["adv", "us", 60_000_000], ["t.cron", "c1", "cur-tz"], ["adv", "us", 60_000_000], ["t.cron", "c1", "stale"],
+      ["t.cron", "c1", "cur"], ["adv", "us", 5], ["t.cron", "c1", "cur-tz"]]),
     ("purge and re-use", [*BUSY, ["result", "i0", "v1"], ["cds.put", "p", True], ["cds.put", "q", False], ["purge", "app"], ["call", "tA", "a", "d", None], ["hb", ["rA"], False],
                           ["purge", "cds"], ["cds.put", "p", True], ["purge", "orch"], ["call", "tB", "b", "x", None], ["set", "i3", "pending", "rA"]]),
 ]
